@@ -42,6 +42,7 @@ class Hooks:
         self.calls = []  # env calls in order: (kind, detail)
         self.active = False
         self._open = builtins.open
+        self._fdopen = os.fdopen
         self._replace = os.replace
         self._stat = os.stat
         self._dumps = json.dumps
@@ -73,13 +74,26 @@ class Hooks:
                 raise TypeError("Object of type Injected is not JSON serializable")
             return hooks._dumps(*a, **kw)
 
+        def fdopen(fd, mode="r", *a, **kw):
+            f = hooks._fdopen(fd, mode, *a, **kw)
+            if not hooks.active or not _from_lib():
+                return f
+            hooks._env_call("open-w" if any(c in mode for c in "wax+") else "open-r", fd)
+            return _FileProxy(hooks, f, any(c in mode for c in "wax+"))
+
         builtins.open = open_
+        import io
+        io.open = open_
+        os.fdopen = fdopen
         os.replace = replace
         os.stat = stat
         json.dumps = dumps
 
     def uninstall(self):
         builtins.open = self._open
+        import io
+        io.open = self._open
+        os.fdopen = self._fdopen
         os.replace = self._replace
         os.stat = self._stat
         json.dumps = self._dumps
